@@ -88,6 +88,14 @@ func gen(r *rand.Rand) WL {
 		if w.Fault.Neg != "" && r.IntN(3) == 0 {
 			w.Fault.NegDB = 1 + r.Uint32()%64
 		}
+		if strings.HasPrefix(w.Fault.Neg, "src_") && len(w.DB.Graphs) > 1 && r.IntN(3) == 0 {
+			// an EMPTY graph among the targets (it is complete as soon as it is started, with no file to show for
+			// it): entities appearing in it before the resume are a changed source like any other
+			gi := r.IntN(len(w.DB.Graphs))
+			w.DB.Graphs[gi].Nodes, w.DB.Graphs[gi].Rels = nil, nil
+			w.Fault.Neg = "src_add_node"
+			w.Fault.NegArg = 2 * r.Uint32N(1000)
+		}
 		if w.Opts.Salt != "" && r.IntN(3) == 0 {
 			w.Fault.Neg = []string{"opt_scrubcfg", "opt_scrubcfg", "opt_salt", "opt_scrub"}[r.IntN(4)]
 		}
@@ -413,6 +421,16 @@ func (r *runner) applyNegative(neg string, arg uint32, spec *stor.DBSpec, o *ret
 			return false
 		}
 		name := gs[int(arg)%len(gs)]
+		if neg == "src_add_node" && arg%2 == 0 {
+			// prefer a recorded graph that was empty at dump time
+			for _, cand := range gs {
+				for _, g := range spec.Graphs {
+					if g.Name == cand && len(g.Nodes) == 0 {
+						name = cand
+					}
+				}
+			}
+		}
 		c := stor.DBSpec{Graphs: append([]stor.GraphSpec{}, spec.Graphs...)}
 		for gi, g := range c.Graphs {
 			if g.Name != name {
